@@ -156,17 +156,13 @@ def spec_written_images(ctx, rnd, n):
                 ng = 1
             files.append(ct.jfile(f))
             chains.append([free.pop() for _ in range(ng)])
-        ins.append({"id": k, "files": files, "chains": chains})
+        # directory slots: contiguous from the first one, or with killed entries before / between the files (every third image)
+        slots = list(range(1, nf + 1)) if k % 3 else sorted(rnd.sample(range(1, rnd.choice([nf + 1, nf + 2, 12, 72]) + 1), nf))
+        ins.append({"id": k, "files": files, "chains": chains, "slots": slots})
     out, st = tlc.bulk("Gen_Disk", ins, cfg="Gen_Disk", nproc=6, min_chunk=8, heap="6g")
     recs = []
     for i in ins:
-        o = out[i["id"]]
-        buf = [0xFF] * ct.IMG
-        buf[ct.FAT_OFF:ct.FAT_OFF + 68] = o["fat"]
-        buf[ct.FAT_OFF + 68:ct.FAT_OFF + 256] = [0] * 188
-        buf[ct.DIR_OFF:ct.DIR_OFF + 2304] = o["dir"]
-        for gr in o["grans"]:
-            buf[ct.seek(gr["g"]):ct.seek(gr["g"]) + GB] = gr["b"]
+        buf = ct.expand_sparse(out[i["id"]])
         recs.append({"id": i["id"], "files": i["files"], "chains": i["chains"], "listed": ct.list_disk(buf)})
     verd, st = tlc.bulk("Tr_DiskRead", recs, cfg="Tr_DiskRead", nproc=6, min_chunk=8, heap="6g")
     nv = 0
